@@ -132,6 +132,10 @@ pub trait Part: Sync {
     fn exhaustive(&self) -> bool {
         true
     }
+    /// whether run_part re-runs a sample of cases to check that observations are reproducible
+    fn rerun_check(&self) -> bool {
+        true
+    }
     /// extra evidence (e.g. model-checker statistics) and machinery errors found while producing it
     fn extra(&self, _cfg: &Cfg) -> (Map<String, Value>, Vec<String>) {
         (Map::new(), vec![])
@@ -228,7 +232,7 @@ pub fn run_part<P: Part>(p: &P, cfg: &Cfg) -> PartReport {
                         }
                     };
                     // replay-determinism: the same case must give the same observations
-                    if i < 64 || i % 97 == 0 {
+                    if p.rerun_check() && (i < 64 || i % 97 == 0) {
                         let again = p.run(cfg, c);
                         a.det += 1;
                         if again != out {
